@@ -41,6 +41,8 @@ package fsnotify
 //@   requires w.done != nil
 //@   requires nolocks()                                                             [C05 C07]
 //@   ensures  closed(w.done)                                                        [C05 C06]
+//@   effect   tok:closer = !already
+//@   ensures  token(closer) <==> !already                                           [C13] "exactly the call that closed the watcher goes on to release its resources"
 //@   ensures  old(closed(w.done)) ==> already                                       [C05] "a second Close is told so"
 //@   ensures  nolocks()                                                             [C05 C07]
 
